@@ -1,0 +1,11 @@
+//go:build verif
+
+package remedies
+
+import "lunar/engine/utils"
+
+// VerifCache exposes the response cache of the caching remedy to the
+// verification harness (build tag verif only).
+func (plugin *CachingPlugin) VerifCache() utils.Cache[CachingPluginKey, CachedResponse] {
+	return plugin.responseCache
+}
